@@ -10,10 +10,15 @@ PhiOls == {3, 5, 7}
 Asms == {<<0, 1>>, <<1, 0>>}
 EffMob10(p, par) == par.M * Phi(p, par)        \* effective mobility in tenths
 Multi == {[M |-> m, chi |-> c, asm |-> a, phiOl |-> f, x |-> <<5, 0>>] : m \in Ms, c \in {0, 3}, a \in Asms, f \in PhiOls}
+\* regime programme of the pair (the SAME for both partners): <<>> = the mineral's own regime, no callback; <<r1, r2>> = a
+\* regime callback that returns r1 during the first 40 % of every update interval and r2 afterwards - the regime in
+\* force when an update starts is not the one in force later in the same update (passive -> migrating, migrating ->
+\* passive, one dislocation-type regime -> the other)
+RegProgs == {<<>>, <<1, 4>>, <<7, 4>>, <<0, 6>>, <<4, 1>>, <<6, 4>>, <<4, 4>>}
 \* the single-phase partner: mobility M*phi/10 must be an integer here
-PairInit == pair \in {[phase |-> p, multi |-> mp,
+PairInit == pair \in {[phase |-> p, multi |-> mp, rp |-> rp,
                        single |-> [M |-> EffMob10(p, mp) \div 10, chi |-> mp.chi, asm |-> <<p>>, phiOl |-> 10, x |-> <<5, 0>>]] :
-                        p \in {0, 1}, mp \in {x \in Multi : EffMob10(0, x) % 10 = 0 /\ EffMob10(1, x) % 10 = 0}}
+                        p \in {0, 1}, rp \in RegProgs, mp \in {x \in Multi : EffMob10(0, x) % 10 = 0 /\ EffMob10(1, x) % 10 = 0}}
 PairNext == UNCHANGED pair
 SameEffective == EffMob10(pair.phase, pair.multi) = EffMob10(pair.phase, pair.single)
 OtherFractionIrrelevant == \A other \in PhiOls :
